@@ -805,6 +805,12 @@ def corpus_cases():
     w2 = default_world()
     w2.update(exe=("target", b"/usr/bin/q"))
     out.append({"family": "corpus", "steps": [{"call": "exe", "w": w1}, {"call": "exe", "w": w2}]})
+    # larger than open_text's 32 KiB read buffer: a multi-byte character and a CR LF pair straddle the
+    # chunk boundary of the incremental decoder
+    big = b"/a" + E_ACUTE * 16382 + b"x\r\nyz" + E_ACUTE * 17000 + b"\0" + b"x\r\ny " * 2000 + b"\0"
+    wb = default_world()
+    wb.update(cmdline=("data", big), environ=("data", (b"K=" + E_ACUTE * 16383 + b"\r\n\0") * 2 + b"Z=1\0"))
+    out.append({"family": "corpus", "steps": [{"call": "cmdline", "w": wb}, {"call": "environ", "w": wb}]})
     return out
 
 
